@@ -323,3 +323,36 @@ package db
 //@   ensures [valid-only-on-a-key-under-the-prefix] it.valid ==> itvalid[source] && len(prefix) <= len(itkeyS[source]) && forall(i, imp(0 <= i && i < len(prefix), at(itkeyS[source], i) == at(prefix, i)))
 //@   callsite Iterator).Next$ [steps-over-the-bare-prefix-key-only] itvalid[source] && ord(itkeyS[source]) == ord(prefix)
 //@   modifies *
+
+// the LevelDB batch: an empty key or a nil value never enters the batch, a closed batch refuses everything,
+// a written batch is closed (cannot be used again), Close is repeatable
+//@ func (*goLevelDBBatch).Set(b, key, value) (err)
+//@   props C18
+//@   nosafety
+//@   requires b != nil
+//@   callsite leveldb.Batch).Put [queued-as-given] len(key) > 0 && value != nil && b.batch != nil && arg0 == b.batch && arg1 == key && arg2 == value
+//@   ensures [empty-key-nil-value-or-closed-batch-refused] len(key) == 0 || value == nil || old(b.batch) == nil ==> err != nil && calls("leveldb.Batch).Put") == 0
+//@   ensures [accepted-means-queued-once] err == nil ==> calls("leveldb.Batch).Put") == 1
+//@   modifies *
+//@ func (*goLevelDBBatch).Delete(b, key) (err)
+//@   props C18
+//@   nosafety
+//@   requires b != nil
+//@   callsite leveldb.Batch).Delete [queued-as-given] len(key) > 0 && b.batch != nil && arg0 == b.batch && arg1 == key
+//@   ensures [empty-key-or-closed-batch-refused] len(key) == 0 || old(b.batch) == nil ==> err != nil && calls("leveldb.Batch).Delete") == 0
+//@   ensures [accepted-means-queued-once] err == nil ==> calls("leveldb.Batch).Delete") == 1
+//@   modifies *
+//@ func (*goLevelDBBatch).write(b, sync) (err)
+//@   props C18
+//@   nosafety
+//@   requires b != nil && b.db != nil
+//@   callsite leveldb.DB).Write [the-whole-batch-in-one-write] arg1 == b.batch && b.batch != nil
+//@   ensures [closed-batch-refused] old(b.batch) == nil ==> err != nil && calls("leveldb.DB).Write") == 0
+//@   ensures [written-once-and-closed] err == nil ==> calls("leveldb.DB).Write") == 1 && b.batch == nil
+//@   modifies *
+//@ func (*goLevelDBBatch).Close(b) (err)
+//@   props C18
+//@   nosafety
+//@   requires b != nil
+//@   ensures [closed-for-good] err == nil && b.batch == nil
+//@   modifies *
